@@ -401,6 +401,21 @@ class Effects:
                                 if key2 not in seen:
                                     seen.add(key2)
                                     effects.append(e2)
+        # closure: a nested function of this function called by name; its writes to free variables are writes to this
+        # function's variables of the same name
+        if isinstance(f, ast.Name):
+            callee = self.prog.functions.get(fi.key + "." + f.id)
+            if callee is not None:
+                summ = self.summary(callee)
+                own = set(callee.params)
+                for eff in (summ["effects"] if summ else ()):
+                    if eff.origin[0] in ("param", "elem") and eff.origin[1] not in own:
+                        for o2, m2 in state.get(eff.origin[1], FRESH):
+                            e2 = eff.via(o2, m2)
+                            key2 = (e2.origin, e2.mode, e2.kind, e2.lineno, e2.func)
+                            if key2 not in seen:
+                                seen.add(key2)
+                                effects.append(e2)
         # callee summaries
         for key in self.prog.resolve_call(fi, c):
             if key.startswith(("ext:", "class:")) or key not in self.prog.functions:
@@ -456,8 +471,10 @@ class Effects:
         self._stack.append(fi.key)
         try:
             saved = getattr(self, "_listparams", set())
+            saved_va = getattr(self, "_vararg", None)
             effects, returns, _, _ = self.analyse(fi)
             self._listparams = saved
+            self._vararg = saved_va
         finally:
             self._stack.pop()
         summ = {"effects": effects, "returns": returns}
